@@ -941,8 +941,9 @@ def run(tier):
     accumulators(prog, rep)
     entry_kind_agreement(prog, rep)
     rep.not_decided += [
-        "values computed by run compression / gap tracking for arbitrary (unbounded) entry sequences",
-        "ucd-parse's own line grammar",
+        "ucd-parse's own line grammar; inputs whose entries are not in ascending order; the per-entry set generators beyond entry-kind agreement",
     ]
+    if len(decided) < 4:
+        rep.not_decided.append("accumulator semantics for arbitrary entry sequences of the functions on which the inductive rules stood down (see stood_down)")
     rep.assumptions += ["pv/ucd.py reads UAX #44 files correctly (cross-checked against the IANA registry in C14)"]
     return rep
